@@ -60,6 +60,19 @@ def run_checked(case, path_args=None):
     est, y = E.build(s, X)
     rec = BatchRecorder(est, keep=False)
     mlcl = case.get("mlcl")
+    if case["dseed"] % 4 == 0:
+        # a read-only question put to the model in the middle of a training step (what a monitoring callback or a
+        # user-written objective does): predictions of other samples, between the forward pass and the back-propagation
+        inner_grads = est._compute_grads
+
+        def monitored(Xb, y_pred, gradient):
+            try:
+                est.predict_proba(np.ascontiguousarray(X[::-1][:len(Xb)]))
+            except Exception:
+                pass
+            return inner_grads(Xb, y_pred, gradient)
+
+        est._compute_grads = monitored
     if mlcl is not None:
         try:
             add_mlcl_constraint(est, mlcl["ml"] or None, mlcl["cl"] or None, mlcl["factor"])
